@@ -583,6 +583,9 @@ fn cluster_sweep<F: Float>(case: &Case, kernel: &Kernel<F>, img: &Image, at_kern
                 continue;
             }
             let out = linkref::admissible(link, &dis, Stop::Count(c), tie_rel);
+            if out.overflow {
+                bump(cnt, "reference_overflow", 1);
+            }
             if out.degenerate || out.overflow {
                 bump(cnt, "reference_degenerate_skipped", 1);
                 bump(cnt, "indeterminate", 1);
@@ -675,6 +678,9 @@ fn cluster_sweep<F: Float>(case: &Case, kernel: &Kernel<F>, img: &Image, at_kern
                 }
             }
             let out = linkref::admissible(link, &dis, Stop::Below { t, inclusive: false }, tie_rel);
+            if out.overflow {
+                bump(cnt, "reference_overflow", 1);
+            }
             if out.degenerate || out.overflow {
                 bump(cnt, "reference_degenerate_skipped", 1);
                 bump(cnt, "indeterminate", 1);
@@ -835,7 +841,11 @@ fn main() {
     let done = std::sync::atomic::AtomicU64::new(0);
     par_sweep(&ctx, "kernel + clustering sweep", &cases, |c| {
         let mut v = Vec::new();
+        let t0 = std::time::Instant::now();
         let cnt = run_case(c, &mut v);
+        if std::env::var("VERIF_C06_SLOW").is_ok() && t0.elapsed().as_secs_f64() > 1.0 {
+            eprintln!("slow case {:.1}s: {} n={} {} {} {} {} cluster={}", t0.elapsed().as_secs_f64(), c.family, c.points.len(), c.float, c.kernel, c.p1, c.p2, c.cluster);
+        }
         ctx.evals(*cnt.get("evals").unwrap_or(&0), *cnt.get("nontrivial").unwrap_or(&0));
         for _ in 0..*cnt.get("indeterminate").unwrap_or(&0) {
             ctx.indeterminate();
